@@ -423,6 +423,16 @@ func (c *Ctx) c19Deterministic(i int, hr *HistRun, o *HistOpts, cat []queryTpl, 
 			c.Violation(i, "query:serving-queries-changes-commit", fmt.Sprintf("history %s block %d: the queried replica diverges from the quiet one (%s)", o.Name, h, diffFirst(a, bb)), hr.replayDoc())
 			return
 		}
+		// like a node with a mempool: the next block's transactions are checked before the queries are asked
+		if bi+1 < int(nb) {
+			for _, tx := range hr.Blocks[bi+1].Txs {
+				if _, err := r.CheckTx(tx); err != nil {
+					c.Err(i, "checktx", err)
+					return
+				}
+				c.Count("pending-mempool-checks-before-queries", 1)
+			}
+		}
 		if !round("after-commit", h, c.N(40, 80)) {
 			return
 		}
